@@ -273,7 +273,7 @@ class _Rec:
         self.msg = msg
 
 
-def h_agg(nu: int, ns: int, no: int, ni: int) -> bool:
+def h_agg(nu: int, ns: int, no: int, ni: int, hostile: bool) -> bool:
     """
     pre: 0 <= nu <= P["n"] and 0 <= ns <= P["n"] and 0 <= no <= P["n"] and 0 <= ni <= 2
     post: _
@@ -283,17 +283,25 @@ def h_agg(nu: int, ns: int, no: int, ni: int) -> bool:
     from codebasin._detail.logging import WarningAggregator
 
     agg = WarningAggregator()
+    hs = bool(hostile)
+    # known-finding region C18-category-by-substring: names that contain the words of another category
+    if hs and "C18-category-by-substring" in P.get("regions", []):
+        return True
+    if P.get("witness") == "C18-category-by-substring" and not hs:
+        return True
     STATS["compared"] += 1
     if P.get("_twin"):
         return False
     msgs = []
+    # with `hostile` the requested header / the file is *named* with the words another category is recognised by
+    un, sn, on = ("system include.h", "user include.h", "/r/user include.c") if hs else ("x0.h", "y.h", "/r/a.c")
     for k in range(nu):
         # the same event may be reported several times with an identical text: every record counts
-        msgs.append(_Rec(logging.WARNING, "/r/a.c:%d: user include 'x%d.h' not found\n    1 | #include \"x.h\"" % (1, 0)))
+        msgs.append(_Rec(logging.WARNING, "/r/a.c:%d: user include '%s' not found\n    1 | #include \"%s\"" % (1, un, un)))
     for k in range(ns):
-        msgs.append(_Rec(logging.WARNING, "/r/a.c:%d: system include 'y%d.h' not found\n    1 | #include <y.h>" % (k + 1, k)))
+        msgs.append(_Rec(logging.WARNING, "/r/a.c:%d: system include '%s' not found\n    1 | #include <%s>" % (k + 1, sn, sn)))
     for k in range(no):
-        msgs.append(_Rec(logging.WARNING, "/r/a.c:%d:0: unrecognized directive '['#foo']'" % (k + 1)))
+        msgs.append(_Rec(logging.WARNING, "%s:%d:0: unrecognized directive '['#foo']'" % (on, k + 1)))
     for k in range(ni):
         msgs.append(_Rec(logging.INFO, "Compiler 'gcc' recognized."))
         msgs.append(_Rec(logging.ERROR, "user include in an error message must not be counted"))
@@ -325,7 +333,7 @@ def h_agg(nu: int, ns: int, no: int, ni: int) -> bool:
     exp_lines = (1 if nu + ns + no > 0 else 0) + (1 if nu else 0) + (1 if ns else 0)
     ok = tot == {"all": nu + ns + no, "user": nu, "system": ns} and len(lines) == exp_lines
     if P.get("_replay"):
-        LAST.update(emitted=dict(user=nu, system=ns, other=no), printed=lines)
+        LAST.update(emitted=dict(user=nu, system=ns, other=no), hostile_names=hs, printed=lines)
     return ok
 
 
@@ -480,8 +488,13 @@ def obligations(tier, known):
     else:
         obs.append(Ob(id="forced/missing", kind="ch", module=__name__, func="h_forced", params={}, timeout=120, group="forced"))
     obs.append(Ob(id="db/entries", kind="ch", module=__name__, func="h_db", params={}, timeout=300, group="db"))
-    obs.append(Ob(id="agg/counts", kind="ch", module=__name__, func="h_agg", params=dict(n=3 if tier == "quick" else 5),
+    regions = sorted(known)
+    obs.append(Ob(id="agg/counts", kind="ch", module=__name__, func="h_agg", params=dict(n=3 if tier == "quick" else 5, regions=regions),
                   timeout=300, group="agg"))
+    if "C18-category-by-substring" in regions:
+        obs.append(Ob(id="witness/C18-category-by-substring", kind="ch", module=__name__, func="h_agg",
+                      params=dict(n=2, regions=[], witness="C18-category-by-substring"), timeout=120,
+                      expect="witness:C18-category-by-substring", group="witness"))
     return obs
 
 
